@@ -1,5 +1,5 @@
 (* ccvmodel: generic driver around the extracted Coq models.
-   usage: ccvmodel <component> < in.jsonl > out.jsonl
+   usage: model_<component> < in.jsonl > out.jsonl   (one binary per component, see tools/build_model.sh)
    each input line : [id, input, implobs]   (JSON restricted to integers and arrays)
    each output line: [id, modelobs, monitor_verdict]
    The driver contains no protocol logic: it parses trees, calls the extracted
@@ -80,11 +80,7 @@ let rec print (b : Buffer.t) (t : Tree.tree) : unit =
     Buffer.add_char b ']'
 
 let () =
-  let comp = if Array.length Sys.argv > 1 then Sys.argv.(1) else "" in
-  let (run, mon) =
-    match SL.assoc_opt comp Components.table with
-    | Some p -> p
-    | None -> prerr_endline ("unknown component " ^ comp); exit 2 in
+  let run = Component.run and mon = Component.mon in
   let b = Buffer.create 65536 in
   (try
      while true do
